@@ -5,12 +5,12 @@ Specs: MqttConnCap.tla, MqttConnCap_Gen.tla, MqttConnCap_Trace.tla.  Entry point
 from lib.vlib import jdump
 from props._mqtt import PKG, validate_traces, short
 
-MC = ("SPECIFICATION CSpec\nCONSTANTS\n  Cap = %d\n  Ids = {\"a\", \"b\", \"c\"}\n  ConnsC <- %s\n  IdOf <- %s\n  StaleTakeover = %s\nVIEW cview\n"
+MC = ("SPECIFICATION CSpec\nCONSTANTS\n  Cap = %d\n  Ids = {\"a\", \"b\", \"c\"}\n  ConnsC <- %s\n  IdOf <- %s\n  StaleTakeover = %s\n  LateRegister = %s\nVIEW cview\n"
       "INVARIANTS CapHolds ReleaseReusable\nPROPERTIES NoAcceptAboveCap RefusedOnlyAtCap TakeoverKeepsCount\n")
-GEN = ("SPECIFICATION GSpec\nCONSTANTS\n  Cap = %d\n  Ids = {\"a\", \"b\", \"c\", \"d\", \"e\"}\n  ConnsC <- GenConns\n  IdOf <- GenId\n  StaleTakeover = FALSE\n"
+GEN = ("SPECIFICATION GSpec\nCONSTANTS\n  Cap = %d\n  Ids = {\"a\", \"b\", \"c\", \"d\", \"e\"}\n  ConnsC <- GenConns\n  IdOf <- GenId\n  StaleTakeover = FALSE\n  LateRegister = FALSE\n"
        "  MaxStepsC = 12\n")
 # schedules with attempts parked in the Connect pipeline (between the early check and the registration)
-GEN_PARK = ("SPECIFICATION PSpec\nCONSTANTS\n  Cap = %d\n  Ids = {\"a\", \"b\", \"c\"}\n  ConnsC <- ParkConns\n  IdOf <- ParkId\n  StaleTakeover = FALSE\n"
+GEN_PARK = ("SPECIFICATION PSpec\nCONSTANTS\n  Cap = %d\n  Ids = {\"a\", \"b\", \"c\"}\n  ConnsC <- ParkConns\n  IdOf <- ParkId\n  StaleTakeover = FALSE\n  LateRegister = FALSE\n"
             "  MaxStepsC = 14\n")
 TRACE_CFG = "SPECIFICATION TSpec\nCONSTRAINT HWM\nPOSTCONDITION Accepted\nINVARIANT CapHolds\n"
 
@@ -29,17 +29,26 @@ def run_mqtt(ctx):
                         "the properties); 'connected clients' = entries of Broker.clients, sampled under Broker.Lock, and the slots the "
                         "contract holds between CONNACK(accepted) and the end of the broker's teardown of that connection",
                         "MQTT cap, gated schedules: attempts are parked in the Connect (authentication) pipeline of the harness, i.e. between "
-                        "checkConnectPermission and the registration under the broker lock (no hook in /repo)"]
+                        "checkConnectPermission and the registration under the broker lock (no hook in /repo); a client that is slow to read its "
+                        "CONNACK is connected over an unbuffered in-memory connection (net.Pipe handed to Broker.handleConn) whose broker-side "
+                        "writes the harness holds; in the concurrent runs every other client reads its CONNACK after a random delay (0-3ms) "
+                        "over such a connection"]
     if _ph(ctx, "mqtt-mc"):
         for cap, conns, idof in ((1, "MCConns", "MCId2"), (2, "MCConns5", "MCId5")) if ctx.quick else ((1, "MCConns5", "MCId5"), (2, "MCConns5", "MCId5"), (3, "MCConns5", "MCId5")):
-            r = ctx.tlc_mc("MqttConnCap", MC % (cap, conns, idof, "FALSE"), label="MQTT cap %d, early check + locked register + remove, all interleavings" % cap, timeout=600)
+            r = ctx.tlc_mc("MqttConnCap", MC % (cap, conns, idof, "FALSE", "FALSE"), label="MQTT cap %d, early check + locked register + remove, all interleavings" % cap, timeout=600)
             ctx.log("MQTT connection-cap model (cap %d): %d distinct states" % (cap, r.distinct))
         # a takeover decided from the lookup of the early check (before the Connect pipeline ran) must be refuted
-        r = ctx.tlc_mc("MqttConnCap", MC % (1, "MCConns", "MCId2", "TRUE"), expect_ok=False, count=False,
+        r = ctx.tlc_mc("MqttConnCap", MC % (1, "MCConns", "MCId2", "TRUE", "FALSE"), expect_ok=False, count=False,
                        label="MQTT cap: takeover decided at the early check (must be refuted)", timeout=600)
         if r.ok:
             ctx.inconclusive("the MQTT connection-cap model does not refute a takeover decided from a stale lookup")
         ctx.log("MQTT connection-cap model with a stale takeover decision refuted: %s" % r.violated)
+        # a registration that follows the CONNACK write (check and registration in two critical sections) must be refuted
+        r = ctx.tlc_mc("MqttConnCap", MC % (1, "MCConns", "MCId2", "FALSE", "TRUE"), expect_ok=False, count=False,
+                       label="MQTT cap: registration after the CONNACK was written (must be refuted)", timeout=600)
+        if r.ok:
+            ctx.inconclusive("the MQTT connection-cap model does not refute a registration that is separated from the decisive check")
+        ctx.log("MQTT connection-cap model with check and registration in separate sections refuted: %s" % r.violated)
     if _ph(ctx, "mqtt-mbt"):
         _mbt(ctx)
     if _ph(ctx, "mqtt-gated"):
@@ -133,9 +142,22 @@ def _gated(ctx):
             for k in list(pend):
                 if not k.endswith("#id"):
                     pend[k] += 1
-    if (across < 10 or refused < 5 or sameid < 5) and not ctx.violations:
+    # attempts of a slow CONNACK reader whose answer was pending while another attempt was released (decided)
+    held_ack = 0
+    for b in behs:
+        acking = set()
+        for s_ in b[1:]:
+            if s_["a"] == "start" and s_.get("slow"):
+                acking.discard(s_["c"])
+            elif s_["a"] == "release":
+                held_ack += len(acking - {s_["c"]}) > 0
+                if any(x.get("a") == "start" and x.get("c") == s_["c"] and x.get("slow") for x in b[1:]):
+                    acking.add(s_["c"])
+            elif s_["a"] == "take":
+                acking.discard(s_["c"])
+    if (across < 10 or refused < 5 or sameid < 5 or held_ack < 10) and not ctx.violations:
         ctx.inconclusive("C17 MQTT gated schedules are vacuous: %d attempts parked across a change of the population, %d refusals, %d attempts "
-                         "with an id that was connected" % (across, refused, sameid))
+                         "with an id that was connected, %d attempts decided while another client's CONNACK was pending" % (across, refused, sameid, held_ack))
 
     def on_reject(seg, whole, tr):
         last = seg[-1]
@@ -149,8 +171,8 @@ def _gated(ctx):
     ok = validate_traces(ctx, "MqttConnCap_Trace", TRACE_CFG, ev, "c17m_gated", on_reject, timeout=1500)
     ctx.traces(ok)
     ctx.nontrivial("mqtt-cap-gated-%d" % ok)
-    ctx.notes.append("MQTT cap, gated schedules: %d attempts parked across a change of the population, %d refusals, %d attempts with a connected id"
-                     % (across, refused, sameid))
+    ctx.notes.append("MQTT cap, gated schedules: %d attempts parked across a change of the population, %d refusals, %d attempts with a connected id, "
+                     "%d attempts decided while the CONNACK of a slow reader was pending" % (across, refused, sameid, held_ack))
     ctx.log("MQTT cap: %d/%d gated schedules linearised by TLC (%d attempts, %d parked across a change of the population, %d refused)" % (
         ok, len(behs), sum(1 for e in ev if e["ev"] == "ret"), across, refused))
 
